@@ -8,7 +8,7 @@ names *in the harness process only*.
 import io
 from textwrap import dedent
 
-from sim.core import ensure_repo, SimFile, OutOfScope, HarnessError
+from sim.core import ensure_repo, SimFile, OutOfScope, HarnessError, StepBudgetExceeded
 
 ensure_repo()
 
@@ -295,6 +295,8 @@ def run_validator(data, tap=False):
     res.explain_failure = None
     res.tell_bits = None
     f = SimFile(data)
+    # the validator reads every byte once, strictly in order
+    f.read_budget = 4 * len(data) + 256
     state = State(_output_picture_callback=lambda p, vp, pcm: res.pics.append((p, dict(vp), pcm)))
     TAP.reset()
     TAP.active = tap
@@ -313,6 +315,8 @@ def run_validator(data, tap=False):
             res.explain_failure = check_reportable(e, tell_bits=tb)
         except OutOfScope as e:
             res.verdict, res.exc = "oos", e
+        except StepBudgetExceeded as e:
+            res.verdict, res.exc = "hang", e
         except Exception as e:  # noqa: BLE001
             res.verdict, res.exc = "crash", e
     finally:
@@ -346,6 +350,7 @@ def run_deserialiser(data, reread=False):
     started and reads its bits again as a bit array."""
     res = DeserResult()
     f = SimFile(data)
+    f.read_budget = 64 * len(data) + 4096
     reader = BitstreamReader(f)
     res.context = None
     del DESER_HEADERS[:]
@@ -368,6 +373,8 @@ def run_deserialiser(data, reread=False):
         res.verdict, res.exc = "parsed", None
     except OutOfScope as e:
         res.verdict, res.exc = "oos", e
+    except StepBudgetExceeded as e:
+        res.verdict, res.exc = "hang", e
     except Exception as e:  # noqa: BLE001
         res.verdict, res.exc = "fail", e
     res.reads = f.reads
